@@ -89,7 +89,11 @@ fn permute(banks: &BankList, p: &Perm) -> BankList {
 /// Digest of the observable result: Err, or timestamp + bit patterns of every f64 of every
 /// avalanche (in list order) and of the vertex.
 pub fn digest(run: u32, banks: &BankList) -> (u64, String) {
-    match MainEvent::try_from_banks(run, banks.iter().map(|(n, d)| (n.as_str(), &d[..]))) {
+    // bank payloads at addresses 0..3 modulo 4; the shift follows the first bank's name, so that a
+    // permuted list places the same payload differently - the result may not depend on it
+    let shift = banks.first().map_or(0, |b| b.0.bytes().map(|c| c as usize).sum::<usize>());
+    let placed = crate::eventgen::PlacedBanks::new(banks, shift);
+    match MainEvent::try_from_banks(run, placed.iter()) {
         Err(_) => (0xE44, "Err".into()),
         Ok(ev) => {
             let mut h = H64::new();
